@@ -689,7 +689,37 @@ def refine_cause(col, got, meta, D):
         return "promotion/int-stored-as-float64"  # homogeneous integer column (e.g. python ints on both sides of 2**63) stored as float64
     if top == "value-became-none/at-sentinel":
         return "%s/value-equals-none-sentinel" % family_key(col, meta)
+    if top == "value-became-none" and hasnone and meta["family"] in ("mixed", "scalar") and cast_lands_on_sentinel(col, got):
+        # same mechanism as the cast-to-first-entry finding: the value, converted to the type of the first non-None entry
+        # (e.g. int8(-3) in a column that starts with a uint8 -> 253), lands exactly on that type's None sentinel
+        return "first-non-none-entry-fixes-type/value-changed"
     return None
+
+
+def cast_lands_on_sentinel(col, got):
+    import numpy as np
+
+    first = next((x for x in col if x is not None), None)
+    if first is None or is_seq(first) or isinstance(first, (dict, str, bool)) or len(col) != len(got) or not isinstance(first, (int, np.integer)):
+        return False
+    t = type(first) if isinstance(first, np.integer) else np.int64
+    info = np.iinfo(t)
+    sentinel = info.max - 2 if info.min == 0 else info.min + 2
+    seen = False
+    for o, g in zip(col, got):
+        if o is None or g is not None:
+            continue
+        if is_seq(o) or isinstance(o, (dict, str)):
+            return False
+        try:
+            with np.errstate(all="ignore"):
+                c = int(np.array([o], dtype=object).astype(t)[0])
+        except Exception:
+            return False
+        if c != sentinel or int(o) == sentinel:
+            return False
+        seen = True
+    return seen
 
 
 def changed_scalars(col, got):
